@@ -383,6 +383,14 @@ func (c *c14Ctx) replayLine(fx func() []*c14Fixture, line string, pool func() *c
 		if len(w) == 3 {
 			c.opSD([]byte(unhx(w[1])), []byte(unhx(w[2])))
 		}
+	case "gr":
+		if len(w) == 2 {
+			c.opGR(strings.Trim(w[1], "-"))
+		}
+	case "bs":
+		if len(w) == 2 {
+			c.opBS(unhx(w[1]))
+		}
 	case "st":
 		if len(w) == 12 {
 			c.opST(at(1), at(2), at(3) == 1, at(4), at(5), at(6) == 1, at(7), at(8), at(9) == 1, at(10), at(11))
@@ -811,6 +819,22 @@ func c14GenSD(ctx *c14Ctx, rng *Rng, n int) {
 	}
 	for l := 0; l <= 40; l++ {
 		ctx.opSD(info, pkg[:l])
+	}
+	// the same truncation sweep with a non-AES algorithm id (RC4: 60-byte verifier) and with every
+	// value of the VerifierHashSize field the stream could claim
+	rc4 := append([]byte{}, info...)
+	binary.LittleEndian.PutUint32(rc4[12+8:], 0x6801)
+	for l := 0; l <= len(rc4); l++ {
+		ctx.opSD(rc4[:l], pkg)
+	}
+	if hs := int(binary.LittleEndian.Uint32(info[8:12])); 12+hs+40 <= len(info) {
+		for _, v := range []uint32{0, 16, 20, 31, 32, 33, 64, 0xFFFFFFFF} {
+			for _, cut := range []int{0, 1, 6, 12, 13, 20} {
+				in := append([]byte{}, info...)
+				binary.LittleEndian.PutUint32(in[12+hs+36:], v)
+				ctx.opSD(in[:len(in)-cut], pkg)
+			}
+		}
 	}
 	for i := 0; i < n; i++ {
 		in := append([]byte{}, info...)
